@@ -58,12 +58,12 @@ prop("C11", level="proof", bounded=True,
 prop("C01", level="proof", bounded=True,
      technique="deductive: representation invariant WF as pre/post of every mutator under contract (pyvc, z3/cvc5); bounded histories as cross-check",
      text="WF (parallel lists, strictly increasing coordinates, boxed leaves) is proved to be preserved by the insertion path "
-          "(_coord2pos, _create_payload, getPayloadRef, getPositionRef), append, position assignment and clear, for all fibers and arguments; the "
+          "(_coord2pos, _create_payload, getPayloadRef, getPositionRef), append, extend, position assignment and clear, for all fibers and arguments; the "
           "constructor's order/uniqueness checks (_checkOrdered/_checkUnique) are proved to accept exactly weakly/strictly ascending coordinate lists, the "
           "populate generator (lshift) and iterRangeShapeRef are proved to keep WF at every yield and at exit; "
           "rejections (CoordinateError / monotonicity assert) are proved to leave both lists unchanged. 'Every history' follows by induction over the "
           "mutator contracts. Mutators outside pyvc's reach (updateCoords' re-sort through zip/sorted, updatePayloads with an arbitrary callable, "
-          "populate bodies, extend, fiber <<=) are decided by the bounded part only: every op of a finite universe on every tree of depth 1-2 over "
+          "populate bodies, fiber <<=) are decided by the bounded part only: every op of a finite universe on every tree of depth 1-2 over "
           "2-3 coordinates incl. explicit defaults and empty sub-fibers, op pairs, and seeded random histories of length 3 (quick) / 5 (thorough) at depth 2-3.",
      note="Trusted: pyvc, z3/cvc5, bisect.bisect_left (partition point of a sorted list), the leaf-rank contract of _createDefault (tier B). "
           "Integer coordinates only in the proof; tuple coordinates and interior ranks in the bounded part.",
